@@ -118,9 +118,10 @@ class Gen:
             s = b'$share/' + g + b'/' + s
         elif r.random() < 0.05:
             s = b'$SYS/' + s
-        if r.random() < self.big:
-            s = s + b'/' + self.word(r.choice([125, 16380, 65535 - len(s) - 1]))
-        return s[:65535] if len(s) > 65535 else s
+        if r.random() < self.big and not s.startswith(b'$'):
+            w = self.word(r.choice([125, 16380, 65535 - len(s) - 1]))
+            s = (w if w else b'x') + b'/' + s
+        return s
 
     def pid(self):
         r = self.r
